@@ -11,7 +11,9 @@ __all__ = ['GithubWiki', 'GithubWikiRenderer']
 
 
 class GithubWiki(SpanToken):
-    pattern = re.compile(r"\[\[ *(.+?) *\| *(.+?) *\]\]")
+    # note: the first group stops at the first '|' (matching what the lazy ".+?" ended up
+    # with anyway); spelling it out keeps unterminated "[[a|[[a|..." input from backtracking cubically.
+    pattern = re.compile(r"\[\[ *(.[^|\n]*?) *\| *(.+?) *\]\]")
 
     def __init__(self, match):
         self.target = match.group(2)
